@@ -1,12 +1,13 @@
 CONSTANTS
-  Schema = <<"int", "bigint", "varchar", "boolean">>
-  Src = <<0, 1, 2, 3>>
-  Dst = <<1, 2, 3, 4>>
+  Schema <- cSchema
+  Src <- cSrc
+  Dst <- cDst
+  Sep <- cSep
+  Only <- cOnly
   NFields = 4
   Wide = FALSE
   MaxRecs = 2
-  Sep = ","
-  EmitOn = TRUE
+  EmitFrom = 1
 INIT MCInit
 NEXT MCNext
 ACTION_CONSTRAINT Emit
